@@ -17,7 +17,7 @@ PROPERTY = "C12"
 LEVEL = "exploration"
 TECHNIQUE = "bounded exhaustive enumeration of circuits x gate sets x decompose options vs. reference simulation and gate-set membership"
 LEVEL_TEXT = ("Every word of length <=2 (quick: length 1 fully, length 2 over a 12-letter sub-alphabet; thorough: length 2 over all 25 "
-              "letters, length 3 over 8 letters) is decomposed under the listed gate sets and option combinations with the real "
+              "letters, length 3 over 12 letters) is decomposed under the listed gate sets and option combinations with the real "
               "qp.transforms.decompose; the result is checked for gate-set membership (or the documented warning) and multiplied out "
               "with the independent numpy simulator against the input circuit up to global phase, work wires included.")
 LEVEL_NOTE = ("Trusted: mc.refsim/refgates, qp.matrix of non-table operators (C01/C02). Program capture / qjit paths, max_expansion and "
@@ -255,9 +255,10 @@ def cases(tier):
                 for nww, alt in (five if quick else nine):
                     out.append({"ops": [e], "gs": g, "graph": 1, "nww": nww, "alt": alt, "stop": stop, "est": 1})
         for g in (QUICK_SUBSETS[:2] if quick else SUBSETS3):
-            out.append({"ops": [e], "gs": g, "graph": 0, "nww": 0, "alt": "", "stop": 0})
-            for nww, alt in ([(1, "")] if quick else five):
-                out.append({"ops": [e], "gs": g, "graph": 1, "nww": nww, "alt": alt, "stop": 0, "est": 1})
+            for stop in ((0,) if quick else (0, 1)):
+                out.append({"ops": [e], "gs": g, "graph": 0, "nww": 0, "alt": "", "stop": stop})
+                for nww, alt in ([(1, "")] if quick else nine):
+                    out.append({"ops": [e], "gs": g, "graph": 1, "nww": nww, "alt": alt, "stop": stop, "est": 1})
     # axis B: words of length 2
     sub = [LETTERS[i] for i in SUB12] if quick else LETTERS
     g2 = ["ROTATIONS_PLUS_CNOT", "RX,RY,CZ,GlobalPhase"] if quick else ["ROTATIONS_PLUS_CNOT", "CLIFFORD_T_PLUS_RZ", "RX,RY,CZ,GlobalPhase", "H,T,CNOT"]
@@ -268,7 +269,7 @@ def cases(tier):
                 out.append({"ops": [a, b], "gs": g, "graph": 1, "nww": 1, "alt": "", "stop": 0})
     # axis C: words of length 3 (thorough)
     if not quick:
-        s8 = [LETTERS[i] for i in SUB8]
+        s8 = [LETTERS[i] for i in SUB12]
         for a in s8:
             for b in s8:
                 for c in s8:
@@ -287,4 +288,4 @@ def run(ctx):
                                 "gate_sets": list(NAMED) + (QUICK_SUBSETS[:2] if quick else SUBSETS3),
                                 "graph": [False, True], "num_work_wires": [0, 1, None], "alt": ["", "alt_decomps{CNOT}", "fixed_decomps{Hadamard}"],
                                 "stopping_condition": [None, "name in (Toffoli, S)"]}
-    ctx.coverage["bound"] = {"word_length": 2 if quick else 3, "length2_letters": 12 if quick else 25, "length3_letters": 0 if quick else 8}
+    ctx.coverage["bound"] = {"word_length": 2 if quick else 3, "length2_letters": 12 if quick else 25, "length3_letters": 0 if quick else 12}
